@@ -339,6 +339,9 @@ def frames(draw, max_rows=24, max_geoms=3):
 
 @st.composite
 def partitionings(draw, n, max_parts=5):
+    # mostly a handful of input partitions; sometimes more than ten (textual and numeric order of part<i> names differ)
+    if draw(st.sampled_from(range(4))) == 0:
+        max_parts = 14
     if draw(st.sampled_from(range(5))) == 0:
         return {'from_pandas': draw(st.integers(1, max_parts))}
     return draw(gen.partition_splits(n, max_parts))
